@@ -957,6 +957,51 @@ fn c03_value_stages__n6() {
 }
 static SIG_VARIANT: Signature = Signature::Variant;
 
+// ---- contract: deserialize_ay  (the byte-array fast path behind deserialize_bytes / deserialize_byte_buf) ----------
+// requires signature `ay`, wf depths
+// ensures  Ok(b) <=> 4-aligned length word present with zero padding ∧ array depth not exceeded ∧ `len` bytes present ;
+//          Ok(b) ==> b = exactly those bytes (borrowed from the buffer), pos advanced past them ;
+//          AFTERWARDS THE DESERIALIZER IS BACK IN ITS OUTER STATE: signature `ay` again (a sibling `ay` decodes next)
+//          and the array depth it took is given back (siblings never accumulate depth)
+// @unit C03.deserialize_ay props=C03,C04,C07,C02 kind=bounded bound=buffer<=12 fn=zvariant::dbus::de::deserialize_ay stubs=C03.parse_padding timeout=1800
+#[cfg(not(verif_skip_c03_deserialize_ay__n12))]
+#[cfg(kani)]
+#[kani::proof]
+#[kani::stub(alloc::fmt::format, stub_format)]
+#[kani::stub(DeserializerCommon::parse_padding, stub_parse_padding)]
+#[kani::stub(<Signature as std::clone::Clone>::clone, stub_sig_clone)]
+#[kani::stub(<str as std::string::ToString>::to_string, stub_str_to_string)]
+#[kani::unwind(3)]
+fn c03_deserialize_ay__n12() {
+    let buf: [u8; 12] = kani::any();
+    let len: usize = kani::any();
+    kani::assume(len <= 12);
+    let bytes = &buf[..len];
+    let (mut de, big) = any_de(bytes, &SIG_AY);
+    let d0 = any_wf_depths();
+    let (s0, a0, v0) = counters(&d0);
+    de.0.container_depths = d0;
+    let pos0 = de.0.pos;
+    let p = spec_pad(de.0.ctxt.position() + pos0, 4);
+    let head_ok = spec_zero_padding(bytes, pos0, p) && pos0 + p + 4 <= len;
+    let l: usize = if head_ok { spec_u32(&bytes[pos0 + p..pos0 + p + 4], big) as usize } else { 0 };
+    let start = pos0 + p + 4;
+    let depth_ok = spec_depth_ok(s0 as u32, a0 as u32 + 1, v0 as u32, 0);
+    let want_ok = head_ok && depth_ok && l <= len - start;
+    let r = deserialize_ay(&mut de);
+    obl!("C03.deserialize_ay.ok_iff_valid_byte_array", r.is_ok() == want_ok);
+    if let Ok(b) = &r {
+        obl!("C03.deserialize_ay.exact_bytes", b.len() == l && b.as_ptr() == bytes[start..].as_ptr());
+        obl!("C03.deserialize_ay.consumed", de.0.pos == start + l);
+        obl!("C03.deserialize_ay.signature_restored_to_ay", core::ptr::eq(de.0.signature, &SIG_AY));
+        obl!("C07.deserialize_ay.array_depth_given_back", counters(&de.0.container_depths) == (s0, a0, v0));
+    }
+    kani::cover!(r.is_ok() && l == 3, "cover.ok_3_bytes");
+    kani::cover!(r.is_err() && head_ok && depth_ok, "cover.err_short");
+    kani::cover!(r.is_err() && !depth_ok, "cover.err_depth");
+    core::mem::forget(r);
+}
+
 // ---- contract: deserialize_any (signature-driven dispatch: how a dynamically typed consumer such as Value reads) ----
 // requires signature = one fixed-size basic type
 // ensures  Ok  <=> a valid encoding of THAT type is present (padding zero, width bytes, bool in {0,1}) ;
